@@ -166,6 +166,63 @@ def promoted_tree(prog, body, constval):
 # ---------------------------------------------------------------------------------------------
 # path-sensitive exploration (small): enum-variant facts about places and constant bool locals
 # ---------------------------------------------------------------------------------------------
+_PROG = [None]
+
+
+def set_program(prog):
+    """make promoted constants resolvable inside explore() (enum equality against `&Enum::Variant` constants)"""
+    _PROG[0] = prog
+
+
+def _enum_eq_result(body, t, vf):
+    """for `<Enum as PartialEq>::eq/ne(&place, &CONST_VARIANT)`: the boolean result when the variant of `place` is known
+    and decides the comparison (different variants, or the same field-less variant); else None"""
+    from .facts import mname, Origins, peel
+    m = mname(t)
+    if m not in ("PartialEq::eq", "PartialEq::ne") or len(t["args"]) != 2 or _PROG[0] is None:
+        return None
+
+    def target(op):
+        pl = op.get("copy") or op.get("move")
+        if pl is None:
+            return None
+        c = body.canon_place(pl)
+        for _ in range(4):
+            if c["p"]:
+                return c
+            d = body.single_def(c["l"])
+            if d and d[2] == "assign" and d[3]["k"] == "ref":
+                c = body.canon_place(d[3]["place"])
+                continue
+            return c
+        return c
+    sides = [target(a) for a in t["args"]]
+    consts = []
+    o = Origins(body)
+    for a in t["args"]:
+        n = peel(o.operand(a))
+        v = None
+        if n.kind == "const":
+            pt = promoted_tree(_PROG[0], body, n.a)
+            if pt is not None:
+                q = peel(pt)
+                if q.kind == "agg" and "::" in q.a[0]:
+                    v = (q.a[0].split("::")[-1], len(q.kids))
+        consts.append(v)
+    for i in (0, 1):
+        c, other = sides[i], consts[1 - i]
+        if c is None or other is None:
+            continue
+        known = vf.get(place_key(c))
+        if known is None:
+            continue
+        if known != other[0]:
+            return m == "PartialEq::ne"
+        if other[1] == 0:
+            return m == "PartialEq::eq"
+    return None
+
+
 def explore(body, start, facts=None, removed_edges=(), removed_blocks=(), learn=True, limit=50000):
     """Blocks reachable from `start` on paths consistent with
        * `facts`: {place_key: variant} known on entry (and, if `learn`, learnt at discriminant
@@ -215,9 +272,12 @@ def explore(body, start, facts=None, removed_edges=(), removed_blocks=(), learn=
         t = blk["term"]
         if t["k"] == "call":
             l = t["dest"]["l"]
+            r = _enum_eq_result(body, t, vf) if vf else None
             for k in [k for k in vf if k[0] == l]:
                 del vf[k]
             bf.pop(l, None)
+            if r is not None and not t["dest"]["p"]:
+                bf[l] = bool(r)
         outs = []
         if t["k"] == "switch":
             ve, rv = variant_edges(body, b)
